@@ -186,6 +186,24 @@ impl TlvOracle {
             let size = 4 + head.2.len() as isize;
             let fits = size < margin || (loose && size == margin);
             out.count("c15.queue-left");
+            // head-of-line blocking: the TLV left behind would not be forwarded anyway (other sender, or the
+            // parent's PATH_TRACE while the option is on), yet it keeps a TLV of the parent that has room waiting
+            let dropped_anyway = head.0 != parent || (pt_on && head.1 == 0x0008);
+            if !fits && dropped_anyway {
+                let mut m2 = margin;
+                for t in &queue[queue.len() - remaining + 1..] {
+                    let sz = 4 + t.2.len() as isize;
+                    let keep = t.0 == parent && !(pt_on && t.1 == 0x0008);
+                    if keep && sz < m2 {
+                        out.oracle("C15", "queue-blocked-by-tlv-that-is-never-forwarded", &format!("{line} -> a {size}-octet TLV that send_announce drops anyway (sender {}, type {}) stays at the head of the queue; behind it a {sz}-octet TLV of the parent has room ({m2} octets) and is not forwarded", head.0, head.1));
+                        break;
+                    }
+                    if keep {
+                        break;
+                    }
+                    m2 -= 0;
+                }
+            }
             if fits {
                 out.oracle("C15", "tlv-left-behind-although-it-fits", &format!("{line} -> queue head of {size} octets left behind with {margin} octets of room"));
             }
